@@ -502,7 +502,7 @@ func ruleC03R8(r *Run) {
 // sends a downstream open or resume request therefore also makes the three subscriptions of the alias — hoisted in
 // front of the retry they stay on the dead connection and every chunk of the successfully opened stream is dropped.
 func ruleC03R11(r *Run) {
-	r.Begin("R11", "the retried unit subscribes: every function literal of package iscp handed to Conn.send or retry.Do that reaches SendDownstreamOpenRequest or SendDownstreamResumeRequest also reaches SubscribeDownstreamChunk, SubscribeDownstreamChunkAckComplete and SubscribeDownstreamMeta", 2)
+	r.Begin("R11", "the retried unit subscribes where each attempt gets a new connection, and only there: every function literal of package iscp handed to Conn.send that reaches SendDownstreamOpenRequest or SendDownstreamResumeRequest also reaches SubscribeDownstreamChunk, SubscribeDownstreamChunkAckComplete and SubscribeDownstreamMeta; a literal handed to retry.Do, which repeats its request on the SAME wire connection, makes no subscription on a connection captured from outside (the subscriptions precede the retry in the enclosing function)", 2)
 	p := r.P
 	subs := []string{"/wire.ClientConn.SubscribeDownstreamChunk", "/wire.ClientConn.SubscribeDownstreamChunkAckComplete", "/wire.ClientConn.SubscribeDownstreamMeta"}
 	n := 0
@@ -510,6 +510,7 @@ func ruleC03R11(r *Run) {
 		if fnPkgPath(site.Parent()) != modPath+"/iscp" {
 			continue
 		}
+		sameConn := !isCallNamed(site, "/iscp.Conn.send")
 		for _, a := range instrCall(site).Args {
 			unit := closureOf(a)
 			if unit == nil || !p.reachesCall(unit, 3, "/wire.ClientConn.SendDownstreamOpenRequest", "/wire.ClientConn.SendDownstreamResumeRequest") {
@@ -517,6 +518,29 @@ func ruleC03R11(r *Run) {
 			}
 			n++
 			name := fnName(unit)
+			if sameConn {
+				// repeated on the same connection: a subscription made in the unit is made again by the second round
+				// and refused ("already subscribed")
+				again := ""
+				for _, c := range p.callsReaching(unit, 1, subs...) {
+					again += " " + callName(c)[strings.LastIndexByte(callName(c), '.')+1:]
+				}
+				before := true
+				encl := site.Parent()
+				for _, sb := range subs {
+					found := false
+					for _, c := range p.callsReaching(encl, 1, sb) {
+						if dominatesInstr(c, site) {
+							found = true
+						}
+					}
+					if !found {
+						before = false
+					}
+				}
+				r.Check(name+" does not subscribe again when the request is repeated", again == "" && before, posOf(p, site), name, fmt.Sprintf("subscriptions made inside the unit that retry.Do repeats on the same wire connection:%s; all three subscriptions precede the retry in the enclosing function: %v. A request repeated after a conflict must reuse the subscriptions: a second Subscribe of the alias fails with 'already subscribed' and the stream is closed instead of resumed", again, before))
+				continue
+			}
 			missing := ""
 			for _, sb := range subs {
 				if !p.reachesCall(unit, 3, sb) {
